@@ -1,14 +1,593 @@
-//! C10 — not built yet
-use crate::vcore::Tier;
+//! C10 — fast tape loading leaves the machine exactly as the ROM loader would.
+//! E-PROD over tapes x requests (and request sequences incl. past the end of the tape) on the real
+//! Emulator through the ROM trap, against RefLdBytes; RefLdBytes itself is validated against the
+//! genuine ROM routine executed on RefZ80 against the ideal waveform. Also hosts C11's system
+//! level (ROM loader in real time vs fast load).
 
-pub fn run(_tier: Tier, _seed: u64, _replay: Option<String>) -> i32 {
-    eprintln!("MACHINERY: check C10 is not built yet");
-    2
+use crate::refzx::*;
+use crate::rig::{self, Emu, Opts, RegsView, VAsset, VDebug};
+use crate::tapemodel::*;
+use crate::vcore::{par_for, Ctx, Tier};
+use refz80::{RefZ80, StepKind};
+use rustzx_core::host::Tape;
+use serde_json::json;
+use std::time::Duration;
+
+const RET_ADDR: u16 = 0x8F00;
+const STACK: u16 = 0xFF40;
+
+#[derive(Clone, Debug)]
+pub struct Case {
+    pub m128: bool,
+    pub blocks: Vec<Vec<u8>>,
+    pub requests: Vec<LdRequest>,
+    /// bytes poked before the first request (VERIFY images)
+    pub pokes: Vec<(u16, Vec<u8>)>,
 }
 
-/// System level of C11 (real-time ROM load vs fast load); filled in with the C10 machinery.
-pub fn realtime_vs_fast(_ctx: &crate::vcore::Ctx) {}
+fn case_json(c: &Case, kind: &str) -> serde_json::Value {
+    json!({"kind":kind,"m128":c.m128,"blocks":c.blocks.iter().map(|b| crate::vcore::hex(b)).collect::<Vec<_>>(),
+        "requests":c.requests.iter().map(|r| json!([r.a, r.load, r.ix, r.de])).collect::<Vec<_>>(),
+        "pokes":c.pokes.iter().map(|(a, b)| json!([a, crate::vcore::hex(b)])).collect::<Vec<_>>()})
+}
 
-pub fn replay_realtime(_ctx: &crate::vcore::Ctx, _case: &serde_json::Value) -> i32 {
-    2
+fn case_from_json(v: &serde_json::Value) -> Case {
+    Case {
+        m128: v["m128"].as_bool().unwrap_or(false),
+        blocks: v["blocks"].as_array().map(|a| a.iter().map(|x| crate::vcore::unhex(x.as_str().unwrap_or(""))).collect()).unwrap_or_default(),
+        requests: v["requests"]
+            .as_array()
+            .map(|a| {
+                a.iter()
+                    .map(|r| LdRequest { a: r[0].as_u64().unwrap() as u8, load: r[1].as_bool().unwrap(), ix: r[2].as_u64().unwrap() as u16, de: r[3].as_u64().unwrap() as u16 })
+                    .collect()
+            })
+            .unwrap_or_default(),
+        pokes: v["pokes"].as_array().map(|a| a.iter().map(|p| (p[0].as_u64().unwrap() as u16, crate::vcore::unhex(p[1].as_str().unwrap_or("")))).collect()).unwrap_or_default(),
+    }
+}
+
+fn machine(m128: bool, fastload: bool) -> Emu {
+    let mut o = Opts::machine(m128);
+    o.fastload = fastload;
+    o.sound = false;
+    let mut e = rig::emu(&o);
+    e.set_debug_interface(VDebug::at(&[RET_ADDR]));
+    if m128 {
+        // page in ROM 1 (48 BASIC, where the loader lives): OUT (7FFD),10h by the emulated CPU
+        let code = [0x01u8, 0xFD, 0x7F, 0x3E, 0x10, 0xED, 0x79, 0xC3, RET_ADDR as u8, (RET_ADDR >> 8) as u8];
+        rig::poke(&mut e, 0x8000, &code);
+        e.verif_cpu().regs.set_pc(0x8000);
+        e.verif_cpu().regs.set_sp(STACK);
+        run_to_ret(&mut e, 2);
+    }
+    e
+}
+
+/// run until the breakpoint at RET_ADDR or `frames` frames elapsed; true = returned
+fn run_to_ret(e: &mut Emu, frames: usize) -> bool {
+    for _ in 0..frames {
+        match e.emulate_frames(Duration::from_secs(1000)) {
+            Ok(info) => {
+                if info.stop_reason == rustzx_core::EmulationStopReason::Breakpoint {
+                    return true;
+                }
+            }
+            Err(_) => return false,
+        }
+    }
+    false
+}
+
+fn issue_request(e: &mut Emu, r: &LdRequest) {
+    let mut v = RegsView::default();
+    v.pc = 0x0556;
+    v.sp = STACK;
+    v.af = (r.a as u16) << 8 | if r.load { 0x01 } else { 0x00 };
+    v.ix = r.ix;
+    v.de = r.de;
+    v.bc = 0x1234;
+    v.hl = 0x5678;
+    v.af_ = 0xA5A4;
+    v.im = 1;
+    v.i = 0x3F;
+    rig::set_regs(e.verif_cpu(), &v);
+    rig::poke(e, STACK, &[RET_ADDR as u8, (RET_ADDR >> 8) as u8]);
+    rig::poke(e, RET_ADDR, &[0x76]);
+}
+
+fn ram_image(e: &Emu) -> Vec<u8> {
+    (0..=0xFFFFu16).map(|a| e.peek(a)).collect()
+}
+
+fn near_stack(a: usize) -> bool {
+    a + 24 >= STACK as usize && a < STACK as usize + 2
+}
+
+/// Execute a case on the real emulator with fast loading, compare every request with RefLdBytes.
+pub fn run_fast_case(ctx: &Ctx, c: &Case, verbose: bool) -> u64 {
+    let mut e = machine(c.m128, true);
+    for (a, b) in c.pokes.iter() {
+        rig::poke(&mut e, *a, b);
+    }
+    let image = tap_image(&c.blocks);
+    if e.load_tape(Tape::Tap(VAsset::new(image))).is_err() {
+        ctx.violation("C10:load_tape-error", "load_tape failed for a well-formed TAP", case_json(c, "fast"));
+        return 0;
+    }
+    let mut digest = 0u64;
+    for (k, req) in c.requests.iter().enumerate() {
+        issue_request(&mut e, req);
+        let before = ram_image(&e);
+        let returned = run_to_ret(&mut e, 12);
+        let after = ram_image(&e);
+        let v = rig::regs_view(e.verif_cpu());
+        let carry = v.af & 1 != 0;
+        let rq = format!("request #{} (A={:02x} {} IX={:04x} DE={:04x})", k, req.a, if req.load { "LOAD" } else { "VERIFY" }, req.ix, req.de);
+        if k < c.blocks.len() {
+            let blk = &c.blocks[k];
+            let exp = ref_ld_bytes(blk, req, &|a| before[a as usize]);
+            if verbose {
+                println!("  {}: block {} -> expected ix={:04x} de={:04x} carry={} writes={} | got returned={} ix={:04x} de={:04x} carry={}", rq, crate::vcore::hex(blk), exp.ix, exp.de, exp.carry, exp.writes.len(), returned, v.ix, v.de, carry);
+            }
+            if !returned {
+                ctx.violation(
+                    &format!("C10:no-return:{}", if req.load { "load" } else { "verify" }),
+                    &format!("{} on block {}: the routine did not return within 12 frames", rq, crate::vcore::hex(&blk[..blk.len().min(8)])),
+                    case_json(c, "fast"),
+                );
+                return 0;
+            }
+            let exit = if exp.carry {
+                "success"
+            } else if exp.de == 0 {
+                "parity-error"
+            } else {
+                "early-exit"
+            };
+            if carry != exp.carry {
+                ctx.violation(
+                    &format!("C10:carry:{}:{}", if req.load { "load" } else { "verify" }, exit),
+                    &format!("{} on block of {} bytes (flag {:02x}): carry={} but the ROM loader gives carry={} ({})", rq, blk.len(), blk.first().copied().unwrap_or(0), carry, exp.carry, exit),
+                    case_json(c, "fast"),
+                );
+                return 0;
+            }
+            if v.ix != exp.ix || v.de != exp.de {
+                ctx.violation(
+                    &format!("C10:ix-de:{}:{}", if req.load { "load" } else { "verify" }, exit),
+                    &format!("{} on block of {} bytes: IX={:04x} DE={:04x}, the ROM loader gives IX={:04x} DE={:04x}", rq, blk.len(), v.ix, v.de, exp.ix, exp.de),
+                    case_json(c, "fast"),
+                );
+                return 0;
+            }
+            let mut want = before.clone();
+            for (a, b) in exp.writes.iter() {
+                want[*a as usize] = *b;
+            }
+            for a in 0..65536usize {
+                if after[a] != want[a] && !near_stack(a) {
+                    ctx.violation(
+                        &format!("C10:memory:{}:{}", if req.load { "load" } else { "verify" }, exit),
+                        &format!("{} on block of {} bytes: memory[{:04x}]={:02x}, the ROM loader leaves {:02x}", rq, blk.len(), a, after[a], want[a]),
+                        case_json(c, "fast"),
+                    );
+                    return 0;
+                }
+            }
+            digest = crate::vcore::fnv_mix(digest, (exp.ix as u64) << 24 | (exp.de as u64) << 8 | exp.carry as u64);
+        } else {
+            // past the end of the tape: must not complete; state as with a silent tape
+            if returned {
+                ctx.violation(
+                    &format!("C10:past-end:returns:{}", if carry { "success" } else { "failure" }),
+                    &format!("{} with no block left on the tape: the routine returned to its caller with carry={} (a silent tape never returns)", rq, carry),
+                    case_json(c, "fast"),
+                );
+                return 0;
+            }
+            // compare with the ROM alone polling a silent EAR (lock step on time)
+            let img: Vec<u8> = before.clone();
+            let sp = spec(c.m128);
+            let dummy = |_a: u16| 0u8;
+            let io = |p: u16, _t: u64| if p & 1 == 0 { 0xBFu8 } else { 0xFF };
+            let mut bus = RefMachine::new(sp, Contended::new(c.m128, 0), 0, &dummy, &io);
+            bus.mem64 = Some(img);
+            let mut rc = RefZ80::new();
+            rc.pc = 0x0556;
+            rc.sp = STACK;
+            rc.a = req.a;
+            rc.f = if req.load { 1 } else { 0 };
+            rc.ix = req.ix;
+            rc.set_de(req.de);
+            rc.set_bc(0x1234);
+            rc.set_hl(0x5678);
+            rc.a_alt = 0xA5;
+            rc.f_alt = 0xA4;
+            rc.im = 1;
+            rc.i = 0x3F;
+            // run the reference until it reaches the implementation's PC at a comparable time: 12 frames
+            let horizon = 12 * sp.frame;
+            while bus.t < horizon {
+                if rc.step(&mut bus) != StepKind::Instruction {
+                    continue;
+                }
+            }
+            // architectural registers the ROM loop keeps: A' F' (request), IX, DE, SP
+            let ok = v.ix == rc.ix && v.de == rc.de() && v.sp == rc.sp && (v.af_ >> 8) as u8 == rc.a_alt && (v.af_ & 0xFF) as u8 == rc.f_alt;
+            if !ok {
+                ctx.violation(
+                    "C10:past-end:state-disturbed",
+                    &format!(
+                        "{} with no block left: after 12 frames IX={:04x} DE={:04x} SP={:04x} AF'={:04x}; the ROM polling a silent tape has IX={:04x} DE={:04x} SP={:04x} AF'={:02x}{:02x}",
+                        rq, v.ix, v.de, v.sp, v.af_, rc.ix, rc.de(), rc.sp, rc.a_alt, rc.f_alt
+                    ),
+                    case_json(c, "fast"),
+                );
+                return 0;
+            }
+            for a in 0x4000..65536usize {
+                if after[a] != bus.mem64.as_ref().unwrap()[a] && !near_stack(a) {
+                    ctx.violation("C10:past-end:memory-disturbed", &format!("{} with no block left: memory[{:04x}] changed", rq, a), case_json(c, "fast"));
+                    return 0;
+                }
+            }
+            digest = crate::vcore::fnv_mix(digest, 0xEEEE);
+        }
+    }
+    digest
+}
+
+// ---------------------------------------------------------------- RefLdBytes vs the genuine ROM
+
+/// Run the ROM routine on RefZ80 against the ideal waveform of `blocks[0]`.
+pub fn rom_on_ref(block: &[u8], req: &LdRequest, pokes: &[(u16, Vec<u8>)]) -> Option<(LdResult, Vec<u8>)> {
+    let rom = rig::read_file("/repo/rustzx-core/src/zx/roms/48.rom");
+    let mut img = vec![0u8; 65536];
+    img[..16384].copy_from_slice(&rom);
+    for (a, b) in pokes {
+        for (i, x) in b.iter().enumerate() {
+            img[*a as usize + i] = *x;
+        }
+    }
+    img[STACK as usize] = RET_ADDR as u8;
+    img[STACK as usize + 1] = (RET_ADDR >> 8) as u8;
+    let edges = ideal_edges(&[block.to_vec()], 50_000);
+    let dummy = |_a: u16| 0u8;
+    let io = |p: u16, t: u64| {
+        if p & 1 == 0 {
+            0xBFu8 | if level_at(&edges, t) { 0x40 } else { 0 }
+        } else {
+            0xFF
+        }
+    };
+    let before = img.clone();
+    let mut bus = RefMachine::new(ULA48, Contended::new(false, 0), 0, &dummy, &io);
+    bus.mem64 = Some(img);
+    let mut rc = RefZ80::new();
+    rc.pc = 0x0556;
+    rc.sp = STACK;
+    rc.a = req.a;
+    rc.f = if req.load { 1 } else { 0 };
+    rc.ix = req.ix;
+    rc.set_de(req.de);
+    rc.im = 1;
+    let limit = edges.last().copied().unwrap_or(0) + 7_000_000;
+    while bus.t < limit {
+        rc.step(&mut bus);
+        if rc.pc == RET_ADDR {
+            let mem = bus.mem64.take().unwrap();
+            let mut writes = Vec::new();
+            for a in 0x4000..65536usize {
+                if mem[a] != before[a] && !near_stack(a) {
+                    writes.push((a as u16, mem[a]));
+                }
+            }
+            return Some((LdResult { ix: rc.ix, de: rc.de(), carry: rc.f & 1 != 0, writes }, before));
+        }
+    }
+    None
+}
+
+fn validate_ref_ld_bytes(ctx: &Ctx, quick: bool) -> bool {
+    let mut cases: Vec<(Vec<u8>, LdRequest, Vec<(u16, Vec<u8>)>)> = Vec::new();
+    let lens: &[usize] = if quick { &[1, 2, 4] } else { &[1, 2, 3, 4, 21] };
+    for &n in lens {
+        for flag in [0x00u8, 0xFF] {
+            for good in [true, false] {
+                let payload: Vec<u8> = (0..n.saturating_sub(2)).map(|i| (i * 37 + 5) as u8).collect();
+                let mut b = if n == 1 { vec![flag] } else { std_block(flag, &payload) };
+                if !good && n >= 2 {
+                    let l = b.len() - 1;
+                    b[l] ^= 0x10;
+                }
+                let dlen = n.saturating_sub(2) as u16;
+                for a in [flag, flag ^ 0x55] {
+                    for load in [true, false] {
+                        let mut des = vec![dlen, dlen.wrapping_sub(1), dlen + 1, 0];
+                        des.push(0xFF02);
+                        des.dedup();
+                        for de in des {
+                            for ix in [0x9000u16, 0x3FFF] {
+                                let mut pokes = vec![];
+                                if !load {
+                                    // memory equal to the payload, and a variant differing in the last byte
+                                    pokes.push((0x9000u16, payload.clone()));
+                                }
+                                cases.push((b.clone(), LdRequest { a, load, ix, de }, pokes));
+                            }
+                        }
+                    }
+                }
+            }
+        }
+    }
+    let ok = std::sync::atomic::AtomicBool::new(true);
+    let n = cases.len();
+    par_for(n, 1, |i| {
+        let (b, r, p) = &cases[i];
+        match rom_on_ref(b, r, p) {
+            Some((rom, before)) => {
+                let mut exp = ref_ld_bytes(b, r, &|a| before[a as usize]);
+                // writes of unchanged values are invisible in a memory diff
+                exp.writes.retain(|(a, v)| before[*a as usize] != *v);
+                let mut final_writes: Vec<(u16, u8)> = Vec::new();
+                for (a, v) in exp.writes.iter() {
+                    final_writes.retain(|(x, _)| x != a);
+                    final_writes.push((*a, *v));
+                }
+                final_writes.sort();
+                if rom.ix != exp.ix || rom.de != exp.de || rom.carry != exp.carry || rom.writes != final_writes {
+                    eprintln!(
+                        "MACHINERY: RefLdBytes disagrees with the ROM: block {} request {:?}: ROM ix={:04x} de={:04x} c={} w={:?} | model ix={:04x} de={:04x} c={} w={:?}",
+                        crate::vcore::hex(b), r, rom.ix, rom.de, rom.carry, rom.writes, exp.ix, exp.de, exp.carry, final_writes
+                    );
+                    ok.store(false, std::sync::atomic::Ordering::Relaxed);
+                }
+            }
+            None => {
+                eprintln!("MACHINERY: the ROM never returned on the ideal waveform: block {} request {:?}", crate::vcore::hex(b), r);
+                ok.store(false, std::sync::atomic::Ordering::Relaxed);
+            }
+        }
+    });
+    ctx.note("refldbytes_validated_against_rom_cases", json!(n));
+    ok.load(std::sync::atomic::Ordering::Relaxed)
+}
+
+// ---------------------------------------------------------------- alphabets
+
+fn block_of(len: usize, flag: u8, good: bool) -> Vec<u8> {
+    // len = total bytes in the block (flag + data + checksum); position-coded data
+    if len == 0 {
+        return vec![];
+    }
+    if len == 1 {
+        return vec![flag];
+    }
+    let payload: Vec<u8> = (0..len - 2).map(|i| ((i * 7 + 3) ^ (i >> 5)) as u8).collect();
+    let mut b = std_block(flag, &payload);
+    if !good {
+        let l = b.len() - 1;
+        b[l] ^= 0x81;
+    }
+    b
+}
+
+fn build_cases(quick: bool) -> Vec<Case> {
+    let lens: Vec<usize> = if quick { vec![1, 2, 3, 19, 129, 130, 131, 258] } else { vec![1, 2, 3, 4, 5, 19, 127, 128, 129, 130, 131, 132, 255, 256, 257, 258, 259, 260, 302] };
+    let sentinel = std_block(0xFF, &[0xC3, 0x3C]);
+    let mut v = Vec::new();
+    for m128 in [false, true] {
+        for &len in lens.iter() {
+            for flag in [0x00u8, 0xFF, 0x55] {
+                if quick && m128 && flag == 0x55 {
+                    continue;
+                }
+                for good in [true, false] {
+                    let b = block_of(len, flag, good);
+                    let dlen = len.saturating_sub(2) as u16;
+                    let mut des: Vec<u16> = vec![0, 1, dlen.wrapping_sub(1), dlen, dlen + 1, dlen + 2, 0xFF00 | (dlen & 0xFF)];
+                    des.sort();
+                    des.dedup();
+                    for a in [0x00u8, 0xFF, 0x55] {
+                        for &de in des.iter() {
+                            let ixs: &[u16] = if quick { &[0x9000, 0x3FFE] } else { &[0x9000, 0x3FFE, 0xFFFE, 0x5AFF] };
+                            for &ix in ixs {
+                                // LOAD
+                                v.push(Case {
+                                    m128,
+                                    blocks: vec![b.clone(), sentinel.clone()],
+                                    requests: vec![LdRequest { a, load: true, ix, de }, LdRequest { a: 0xFF, load: true, ix: 0xA000, de: 2 }],
+                                    pokes: vec![],
+                                });
+                                // VERIFY against equal memory and memory differing at first / middle / last byte
+                                let data: Vec<u8> = if b.len() > 1 { b[1..].to_vec() } else { vec![] };
+                                let variants: Vec<Option<usize>> = if data.is_empty() { vec![None] } else { vec![None, Some(0), Some(data.len() / 2), Some(data.len() - 1)] };
+                                for var in variants {
+                                    if quick && matches!(var, Some(k) if k != 0 && k != data.len() - 1) {
+                                        continue;
+                                    }
+                                    let mut img = data.clone();
+                                    if let Some(k) = var {
+                                        img[k] ^= 0x40;
+                                    }
+                                    if ix == 0xFFFE && img.len() > 2 {
+                                        img.truncate(2);
+                                    }
+                                    v.push(Case {
+                                        m128,
+                                        blocks: vec![b.clone(), sentinel.clone()],
+                                        requests: vec![LdRequest { a, load: false, ix, de }, LdRequest { a: 0xFF, load: true, ix: 0xA000, de: 2 }],
+                                        pokes: if ix >= 0x4000 { vec![(ix, img)] } else { vec![] },
+                                    });
+                                }
+                            }
+                        }
+                    }
+                }
+            }
+        }
+        // sequences incl. past the end
+        let b1 = block_of(19, 0x00, true);
+        let b2 = block_of(130, 0xFF, true);
+        let b3 = block_of(3, 0xFF, false);
+        let reqs = |n: usize| -> Vec<LdRequest> {
+            let all = vec![
+                LdRequest { a: 0x00, load: true, ix: 0x9000, de: 17 },
+                LdRequest { a: 0xFF, load: true, ix: 0x9100, de: 128 },
+                LdRequest { a: 0xFF, load: false, ix: 0x9200, de: 1 },
+                LdRequest { a: 0xFF, load: true, ix: 0x9300, de: 10 },
+                LdRequest { a: 0x00, load: false, ix: 0x9400, de: 0 },
+            ];
+            all[..n].to_vec()
+        };
+        v.push(Case { m128, blocks: vec![b1.clone(), b2.clone(), b3.clone()], requests: reqs(4), pokes: vec![] });
+        v.push(Case { m128, blocks: vec![b1.clone(), b2.clone()], requests: reqs(4), pokes: vec![] });
+        v.push(Case { m128, blocks: vec![b1.clone()], requests: reqs(2), pokes: vec![] });
+        v.push(Case { m128, blocks: vec![], requests: reqs(1), pokes: vec![] });
+        v.push(Case { m128, blocks: vec![], requests: vec![LdRequest { a: 0xFF, load: false, ix: 0x9000, de: 5 }], pokes: vec![] });
+        // wrong flag first, then retry: the mismatching block is consumed
+        v.push(Case { m128, blocks: vec![b1.clone(), b2.clone()], requests: vec![LdRequest { a: 0xFF, load: true, ix: 0x9000, de: 17 }, LdRequest { a: 0xFF, load: true, ix: 0x9100, de: 128 }, LdRequest { a: 0xFF, load: true, ix: 0x9100, de: 128 }], pokes: vec![] });
+    }
+    v
+}
+
+// ---------------------------------------------------------------- C11 system level
+
+/// Real ROM loader in real time (tape playing, fast load off) must give the same memory, IX, DE
+/// and carry as fast loading and as RefLdBytes.
+pub fn realtime_case(ctx: &Ctx, c: &Case, verbose: bool) -> u64 {
+    let mut e = machine(c.m128, false);
+    for (a, b) in c.pokes.iter() {
+        rig::poke(&mut e, *a, b);
+    }
+    if e.load_tape(Tape::Tap(VAsset::new(tap_image(&c.blocks)))).is_err() {
+        return 0;
+    }
+    e.play_tape();
+    let mut digest = 0u64;
+    for (k, req) in c.requests.iter().enumerate() {
+        if k >= c.blocks.len() {
+            break;
+        }
+        issue_request(&mut e, req);
+        let before = ram_image(&e);
+        // a header block takes 8063*2168 T = 5 s; allow 12 s of emulated time
+        let returned = run_to_ret(&mut e, 600);
+        let v = rig::regs_view(e.verif_cpu());
+        let after = ram_image(&e);
+        let exp = ref_ld_bytes(&c.blocks[k], req, &|a| before[a as usize]);
+        let carry = v.af & 1 != 0;
+        if verbose {
+            println!("  realtime request #{}: returned={} ix={:04x} de={:04x} carry={} | expected ix={:04x} de={:04x} carry={}", k, returned, v.ix, v.de, carry, exp.ix, exp.de, exp.carry);
+        }
+        let mut want = before.clone();
+        for (a, b) in exp.writes.iter() {
+            want[*a as usize] = *b;
+        }
+        let mem_ok = (0x4000..65536usize).all(|a| after[a] == want[a] || near_stack(a));
+        if !returned || carry != exp.carry || v.ix != exp.ix || v.de != exp.de || !mem_ok {
+            ctx.violation(
+                &format!("C11:realtime-load:{}", if !returned { "no-return" } else if carry != exp.carry { "carry" } else if !mem_ok { "memory" } else { "ix-de" }),
+                &format!(
+                    "ROM loader in real time, request #{} (A={:02x} {} IX={:04x} DE={:04x}) on block of {} bytes: returned={} IX={:04x} DE={:04x} carry={}; fast load / ROM semantics give IX={:04x} DE={:04x} carry={}",
+                    k, req.a, if req.load { "LOAD" } else { "VERIFY" }, req.ix, req.de, c.blocks[k].len(), returned, v.ix, v.de, carry, exp.ix, exp.de, exp.carry
+                ),
+                case_json(c, "realtime"),
+            );
+            return 0;
+        }
+        digest = crate::vcore::fnv_mix(digest, (v.ix as u64) << 24 | (v.de as u64) << 8 | carry as u64);
+    }
+    digest
+}
+
+pub fn realtime_vs_fast(ctx: &Ctx) {
+    let quick = !ctx.thorough();
+    let mut cases: Vec<Case> = Vec::new();
+    let lens: &[usize] = if quick { &[3, 131] } else { &[1, 2, 3, 19, 130, 131, 258] };
+    for m128 in [false, true] {
+        for &len in lens {
+            for (flag, good) in [(0xFFu8, true), (0xFF, false), (0x00, true)] {
+                if quick && (flag == 0 || (m128 && !good)) {
+                    continue;
+                }
+                let b = block_of(len, flag, good);
+                let dlen = len.saturating_sub(2) as u16;
+                let b2 = block_of(4, 0xFF, true);
+                for (a, load, de) in [(flag, true, dlen), (flag, true, dlen + 1), (flag ^ 1, true, dlen), (flag, false, dlen), (flag, true, dlen.saturating_sub(1))] {
+                    if quick && !(load && de == dlen) && len != 3 {
+                        continue;
+                    }
+                    let data: Vec<u8> = if b.len() > 2 { b[1..b.len() - 1].to_vec() } else { vec![] };
+                    cases.push(Case {
+                        m128,
+                        blocks: vec![b.clone(), b2.clone()],
+                        requests: vec![LdRequest { a, load, ix: 0x9000, de }, LdRequest { a: 0xFF, load: true, ix: 0x6000, de: 2 }],
+                        pokes: if load { vec![] } else { vec![(0x9000, data)] },
+                    });
+                }
+            }
+        }
+    }
+    let n = cases.len();
+    par_for(n, 1, |i| {
+        let d = realtime_case(ctx, &cases[i], false);
+        let f = run_fast_case(ctx, &cases[i], false);
+        if d != 0 && f != 0 && d != f {
+            ctx.violation("C11:realtime-vs-fast:differ", "real-time load and fast load of the same requests give different IX/DE/carry", case_json(&cases[i], "realtime"));
+        }
+        ctx.outcome(d);
+        ctx.add_traces(1);
+    });
+    ctx.note("realtime_rom_loads", json!(n));
+}
+
+pub fn replay_realtime(ctx: &Ctx, case: &serde_json::Value) -> i32 {
+    let c = case_from_json(case);
+    realtime_case(ctx, &c, true);
+    let n = ctx.violation_classes();
+    println!("replay: {} violation class(es) reproduced", n);
+    (n > 0) as i32
+}
+
+pub fn run(tier: Tier, seed: u64, replay: Option<String>) -> i32 {
+    let ctx = Ctx::new("C10", tier, seed, "model_checking");
+    if let Some(path) = replay {
+        let v: serde_json::Value = serde_json::from_slice(&rig::read_file(&path)).expect("replay json");
+        let c = case_from_json(&v["case"]);
+        println!("replay: {:?}", c);
+        run_fast_case(&ctx, &c, true);
+        let n = ctx.violation_classes();
+        println!("replay: {} violation class(es) reproduced", n);
+        return (n > 0) as i32;
+    }
+    if let Err(e) = crate::oracle::require_valid() {
+        eprintln!("MACHINERY: reference model not validated: {}", e);
+        return 2;
+    }
+    let quick = !tier.is_thorough();
+    if !validate_ref_ld_bytes(&ctx, quick) {
+        eprintln!("MACHINERY: RefLdBytes is not the ROM's behaviour; refusing to judge");
+        return 2;
+    }
+    let cases = build_cases(quick);
+    let n = cases.len();
+    par_for(n, 4, |i| {
+        let d = run_fast_case(&ctx, &cases[i], false);
+        ctx.outcome(d);
+        ctx.add_eval(1);
+        ctx.add_transitions(cases[i].requests.len() as u64);
+        ctx.add_traces(1);
+    });
+    ctx.add_states(n as u64);
+    ctx.sample(json!(case_json(&cases[n / 3], "fast")));
+    ctx.note("cases", json!(n));
+    ctx.note("not_judged", json!("bytes in the 24 bytes below the caller's stack pointer (ROM call frames); TAP files truncated inside a block (C15)"));
+    ctx.finish(
+        "tapes: block lengths around the 128-byte buffer boundaries x flag {00,FF,55} x checksum right/wrong, followed by a sentinel block; requests: A {00,FF,55} x LOAD/VERIFY x DE {0,1,n-1,n,n+1,n+2,FFxx (flag test skipped)} x IX {RAM, ROM/RAM edge, (thorough) wrap, screen}, VERIFY against equal memory and memory differing at the first/middle/last byte; request sequences of up to 4 incl. past the end of the tape and on an empty tape; both machines. Each request is issued to the real ROM entry 0556h on the real Emulator with fast loading and compared (all 64K of memory, IX, DE, carry) with RefLdBytes, which is validated every run against the genuine ROM executed on RefZ80 against the ideal waveform. states = cases, transitions = requests",
+        true,
+        &["RefLdBytes validated against the 48K ROM on RefZ80 + ideal waveform", "the second request of every case loads a sentinel block, which checks that exactly one block was consumed"],
+    )
 }
